@@ -1,10 +1,36 @@
 package main
 
+import (
+	"go/ast"
+	"go/token"
+)
+
 func init() {
 	extractors = append(extractors, func() {
 		g := newGen("C02", "runner/ptrace/handle_linux.go")
 		g.p("open GoSandbox.GoLite\n\n")
 		f := parseFile("runner/ptrace/handle_linux.go")
+		// the link budget of the resolver, as the source has it
+		depth := ""
+		for _, d := range f.Decls {
+			gd, ok := d.(*ast.GenDecl)
+			if !ok || gd.Tok != token.CONST {
+				continue
+			}
+			for _, sp := range gd.Specs {
+				vs := sp.(*ast.ValueSpec)
+				for i, nm := range vs.Names {
+					if nm.Name == "maxSymlinkDepth" && i < len(vs.Values) {
+						depth = exprStr(vs.Values[i])
+					}
+				}
+			}
+		}
+		if depth == "" {
+			fail("const maxSymlinkDepth not found")
+			depth = "0"
+		}
+		g.p("def maxSymlinkDepth : Nat := %s\n\n", depth)
 		for _, n := range []string{"resolveTraceePath", "absPath", "absPathAt", "getProcFd", "normalizeProcMagicPath",
 			"isOpenReadOnly", "isDangerousProcPath", "isAllowedProcAlias", "combineTraceActions"} {
 			emitFunc(g, n, findFunc(f, "", n))
